@@ -9380,6 +9380,12 @@ class SVG(Group):
                     clip += 1
                 elif SVG_TAG_USE == tag:
                     try:
+                        # x and y are lengths in the current viewport (units, percentages).
+                        for key, rel in ((SVG_ATTR_X, width), (SVG_ATTR_Y, height)):
+                            if key in values:
+                                values[key] = Length(values[key]).value(
+                                    ppi=ppi, relative_length=rel
+                                )
                         s = Use(values)
                     except ValueError:
                         values[SVG_ATTR_DISPLAY] = SVG_VALUE_NONE
